@@ -177,4 +177,113 @@ theorem Inv.serialised {α} (s : State α) (h : Inv s) : noInterleave (tids s) =
     rw [hh] at hlog; simp only at hlog
     rw [hlog.1]; exact noInterleave_append_replicate C k h' hC hlog.2
 
+/-! ### program order -/
+
+/-- what thread state `th` still has to emit -/
+def remaining {α} : Th α → List α
+  | .idle prog => prog
+  | .running rest => rest
+  | .done => []
+
+/-- what thread `t` has emitted so far -/
+def emitted {α} (s : State α) (t : Nat) : List α := (s.log.filter (·.1 == t)).map (·.2)
+
+/-- every thread has emitted a prefix of its program, in order, and still has the rest to go -/
+def Prog {α} (progs : List (List α)) (s : State α) : Prop :=
+  s.threads.length = progs.length ∧
+  ∀ t (th : Th α), s.threads[t]? = some th → ∃ p, progs[t]? = some p ∧ emitted s t ++ remaining th = p
+
+theorem Prog.init {α} (progs : List (List α)) : Prog progs (init progs) := by
+  refine ⟨by simp [ReloadMutex.init], ?_⟩
+  intro t th h
+  simp only [ReloadMutex.init, List.getElem?_map] at h
+  cases hp : progs[t]? with
+  | none => simp [hp] at h
+  | some p =>
+    simp only [hp, Option.map_some, Option.some.injEq] at h
+    subst h
+    exact ⟨p, rfl, by simp [emitted, ReloadMutex.init, remaining]⟩
+
+theorem emitted_snoc_self {α} (s : State α) (t : Nat) (e : α) (thr : List (Th α)) :
+    emitted { s with threads := thr, log := s.log ++ [(t, e)] } t = emitted s t ++ [e] := by
+  simp [emitted, List.filter_append]
+
+theorem emitted_snoc_other {α} (s : State α) (t u : Nat) (e : α) (thr : List (Th α)) (h : u ≠ t) :
+    emitted { s with threads := thr, log := s.log ++ [(t, e)] } u = emitted s u := by
+  have : ((t == u) = false) := by simpa using (fun hh : t = u => h hh.symm)
+  simp [emitted, List.filter_append, this]
+
+theorem Prog.step {α} (progs : List (List α)) (s : State α) (t : Nat) (h : Prog progs s) :
+    Prog progs (step s t) := by
+  obtain ⟨hlen, hp⟩ := h
+  unfold ReloadMutex.step
+  cases ht : s.threads[t]? with
+  | none => exact ⟨hlen, hp⟩
+  | some th =>
+    cases th with
+    | done => exact ⟨hlen, hp⟩
+    | idle prog =>
+      cases hh : s.holder with
+      | some _ => exact ⟨hlen, hp⟩
+      | none =>
+        simp only []
+        refine ⟨by simpa using hlen, ?_⟩
+        intro u th' hu
+        rcases getElem?_set_cases _ _ _ _ _ hu with ⟨hut, hb⟩ | ⟨_, hb⟩
+        · subst hut; subst hb
+          obtain ⟨p, h1, h2⟩ := hp u _ ht
+          exact ⟨p, h1, by simpa [emitted, remaining] using h2⟩
+        · obtain ⟨p, h1, h2⟩ := hp u _ hb
+          exact ⟨p, h1, by simpa [emitted] using h2⟩
+    | running rest =>
+      cases rest with
+      | nil =>
+        simp only []
+        refine ⟨by simpa using hlen, ?_⟩
+        intro u th' hu
+        rcases getElem?_set_cases _ _ _ _ _ hu with ⟨hut, hb⟩ | ⟨_, hb⟩
+        · subst hut; subst hb
+          obtain ⟨p, h1, h2⟩ := hp u _ ht
+          exact ⟨p, h1, by simpa [emitted, remaining] using h2⟩
+        · obtain ⟨p, h1, h2⟩ := hp u _ hb
+          exact ⟨p, h1, by simpa [emitted] using h2⟩
+      | cons e rest' =>
+        simp only []
+        refine ⟨by simpa using hlen, ?_⟩
+        intro u th' hu
+        rcases getElem?_set_cases _ _ _ _ _ hu with ⟨hut, hb⟩ | ⟨hne, hb⟩
+        · subst hut; subst hb
+          obtain ⟨p, h1, h2⟩ := hp u _ ht
+          refine ⟨p, h1, ?_⟩
+          rw [emitted_snoc_self]
+          simpa [remaining, List.append_assoc] using h2
+        · obtain ⟨p, h1, h2⟩ := hp u _ hb
+          refine ⟨p, h1, ?_⟩
+          rw [emitted_snoc_other _ _ _ _ _ hne]
+          exact h2
+
+theorem Prog.exec {α} (progs : List (List α)) (sched : List Nat) : Prog progs (exec progs sched) := by
+  unfold ReloadMutex.exec
+  generalize hs : ReloadMutex.init progs = s0
+  have h0 : Prog progs s0 := hs ▸ Prog.init progs
+  clear hs
+  induction sched generalizing s0 with
+  | nil => exact h0
+  | cons t rest ih => exact ih _ (Prog.step progs s0 t h0)
+
+/-- what a `Reload` call has run so far is a prefix of its hook sequence, in order -/
+theorem emitted_prefix {α} (progs : List (List α)) (sched : List Nat) (t : Nat) (p : List α)
+    (hp : progs[t]? = some p) : emitted (exec progs sched) t <+: p := by
+  obtain ⟨hlen, h⟩ := Prog.exec progs sched
+  have hlt : t < progs.length := by
+    rcases Nat.lt_or_ge t progs.length with h1 | h1
+    · exact h1
+    · rw [List.getElem?_eq_none h1] at hp; cases hp
+  have : t < (exec progs sched).threads.length := by rw [hlen]; exact hlt
+  obtain ⟨p', h1, h2⟩ := h t _ (List.getElem?_eq_getElem this)
+  rw [hp] at h1
+  simp only [Option.some.injEq] at h1
+  subst h1
+  exact ⟨_, h2⟩
+
 end Rivaas.ReloadMutex
